@@ -389,12 +389,17 @@ def main(ctx):
         ('live', None, dict(CH, MaxReq=2, MaxSlow=1), 'Terminates', False),
         ('live_g', None, dict(GL, MaxReq=2 if quick else 3, MaxSlow=1),
          'Terminates', False),
-        # sensitivity: wrong rules that TLC must reject
-        ('lifo', 'MatchOwn', dict(GL, MaxReq=2, Fifo='FALSE'), None, False),
-        ('unwanted', 'OneReplyEach', dict(GL, MaxReq=2, OnlyWanted='FALSE'),
+        # sensitivity: wrong rules that TLC must reject (one invariant per
+        # run: with several broken at once the first one reported depends on
+        # the worker threads)
+        ('lifo', 'MatchOwn', dict(GL, MaxReq=2, Fifo='FALSE',
+                                  invs=['MatchOwn']), None, False),
+        ('unwanted', 'OneReplyEach', dict(GL, MaxReq=2, OnlyWanted='FALSE',
+                                          invs=['OneReplyEach']),
          None, False),
         ('concurrent', 'OneAtATime', dict(GL, MaxReq=2, Serial='FALSE',
-                                          MaxSlow=2), None, False),
+                                          MaxSlow=2, invs=['OneAtATime']),
+         None, False),
         ('concurrent_r', 'RepliesInOrder',
          dict(GL, MaxReq=2, Serial='FALSE', invs=['RepliesInOrder']), None,
          False),
@@ -404,16 +409,20 @@ def main(ctx):
          dict(GL, MaxReq=2, CancelKeeps='FALSE', invs=['NoProtocolError']),
          None, False),
         ('pinned_queue', 'NoServiceAfterGone',
-         dict(CH, MaxReq=2, DropOnGone='FALSE'), None, False),
+         dict(CH, MaxReq=2, DropOnGone='FALSE', invs=['NoServiceAfterGone']),
+         None, False),
         ('closekeeps', 'WaitersResolve',
-         dict(CH, MaxReq=2, CloseResolves='FALSE'), None, False),
-        ('cutkeeps', 'WaitersResolve', dict(GL, MaxReq=2, CutResolves='FALSE'),
+         dict(CH, MaxReq=2, CloseResolves='FALSE', invs=['WaitersResolve']),
+         None, False),
+        ('cutkeeps', 'WaitersResolve', dict(GL, MaxReq=2, CutResolves='FALSE',
+                                            invs=['WaitersResolve']),
          None, False),
         ('lateply', 'NoReplyAfterClose',
          dict(CH, MaxReq=2, SilentAfterClose='FALSE',
               invs=['NoReplyAfterClose']), None, False),
         ('unsolok', 'UnsolicitedFatal',
-         dict(FREE, MaxReq=1, UnsolFatal='FALSE'), None, False),
+         dict(FREE, MaxReq=1, UnsolFatal='FALSE', invs=['UnsolicitedFatal']),
+         None, False),
         ('nofail', 'AllAnswered', dict(GL, MaxReq=2, FailReplies='FALSE',
                                        invs=['AllAnswered']), None, False),
         # vacuity witnesses (reachable = reported violated)
